@@ -7,6 +7,11 @@ ENGINES = [
 NOT_APPLICABLE = {}
 _NOTE = 'Trusted base: compiler + sanitizer runtimes, the engine in harness/engine.h, and the independent reference oracle named in the technique (self-tested at every start). Verdict is "held on everything explored", not absence.'
 TEXT = {
+ 'C04': dict(engine='sweep+pbt', design_ref='DESIGN.md 5/C04',
+   technique='exhaustive sweep + property-based testing vs exact numeric reference model, differential over source/target type pairs and archive carriers',
+   level_text='All 8/16-bit source values are converted into 11 target types and compared with an exact model; ~2*10^5 generated (source type, boundary/random value, target type, archive, position, policies, memory/stream) cases per quick run save the value with the library (MsgPack also with an independent encoder choosing any legal format), load it into the target type and require: exact value, or the documented report (Overflow / MismatchedTypes exception, or skip with the target untouched and the Required validator firing) - never a truncated, wrapped or sign-changed value; neighbours must stay intact.',
+   level_note=_NOTE),
+
  'C15': dict(engine='pbt+sweep', design_ref='DESIGN.md 5/C15',
    technique='grammar-based property testing: texts rendered from generated fields, denoted value computed independently in __int128',
    level_text='~4*10^5 generated date-time and duration texts per quick run (fields at, below and above every range, years and magnitudes to and beyond 2^64, all target-limit neighbourhoods), each parsed into 14 time_point and 14 duration types plus time_t and tm and judged against the value the text denotes: exact value (fraction rounded, either neighbour on ties), out_of_range, or invalid_argument; every fraction value up to 6 digits exhaustively; mutated garbage for totality; all under ASan/UBSan and in two string widths.',
